@@ -231,7 +231,15 @@ def run_sim(argv, files, chooser, capacity=65536, feeder=True, step_cap=K.STEP_C
     recorder = _ErrorRecorder()
     root.addFilter(recorder)
     simfs.populate(files)
-    argv = [simfs.to_real(a) for a in argv]
+    import os
+
+    saved_cwd = os.getcwd()
+    if env.get("relpaths"):
+        # the user works inside the data directory: every path on the command line is relative
+        os.chdir(simfs.root())
+        argv = [a.replace(simfs.PREFIX, "") if isinstance(a, str) else a for a in argv]
+    else:
+        argv = [simfs.to_real(a) for a in argv]
     out_buf = simfs.CapturedStdoutBuffer()
     saved_std = (sys.stdin, sys.stdout, sys.stderr)
     stdin_data = files.get(env["stdin_path"]) if env.get("stdin_path") else None
@@ -269,6 +277,7 @@ def run_sim(argv, files, chooser, capacity=65536, feeder=True, step_cap=K.STEP_C
             res.stderr = simfs.to_sim(sys.stderr.getvalue())
             res.progress = "".join(getattr(sys.stderr, "progress", []))
             sys.argv = saved_argv
+            os.chdir(saved_cwd)
             stdin_objects = list(kern.images.stdin_of.values()) + [sys.stdin]
             sys.stdin, sys.stdout, sys.stderr = saved_std
             _close_stdin(stdin_fd, stdin_ident, stdin_objects)
